@@ -139,9 +139,11 @@ def start_global_contexts(global_ctx_only: str | None = None) -> None:
         idx = global_ctx_name.find(".")
         if idx < 0 or global_ctx_name[0:idx] not in {"file", "apps", "modules", "scripts"}:
             continue
-        if global_ctx_only is not None and global_ctx_only != "*":
-            if global_ctx_name != global_ctx_only and not global_ctx_name.startswith(global_ctx_only + "."):
-                continue
+        #
+        # a reload of one named context also reloads the rest of its app or module package and
+        # everything that imports it; start() is a no-op for contexts that are already started,
+        # so start every context rather than only the named one
+        #
         global_ctx.set_auto_start(True)
         start_list.append(global_ctx)
     for global_ctx in start_list:
